@@ -72,10 +72,10 @@ class CallMixin:
             import collections
             seqs = (list, tuple, collections.deque)
             pts = {Str: (str,), PyList: seqs, PyDict: (dict, collections.OrderedDict, collections.defaultdict, collections.Counter),
-                   AbsList: seqs, ListV: seqs}.get(type(base))
+                   AbsList: seqs, ListV: seqs, PyTuple: (tuple,)}.get(type(base))
             if isinstance(base, Const) and type(base.v) in (str, int, float, bool, tuple, bytes, type(None), frozenset):
                 pts = (type(base.v),)
-            if pts and not any(hasattr(t, attr) for t in pts):
+            if pts and not any(hasattr(t(), attr) for t in pts):  # of an instance: `().__name__` fails although `tuple.__name__` exists
                 self.may_raise("builtins.AttributeError", f"{_describe(base)}.{attr}", definite=True)
                 raise _Raise(self.make_exc("builtins.AttributeError"), self.cur_where)
             return Sym("bm", base, attr)
@@ -1418,8 +1418,10 @@ class CallMixin:
                     pass
         if name == "range" and a and all(isinstance(x, Const) and isinstance(x.v, int) for x in a):
             r = range(*[x.v for x in a])
-            if len(r) <= 64:
+            n_r = max(0, (r.stop - r.start + (r.step - (1 if r.step > 0 else -1))) // r.step)  # len(r) overflows for huge ranges
+            if n_r <= 64:
                 return PyList([Const(i) for i in r])
+            return Sym("range", *a)  # too long to enumerate: membership in it is a question about a run-time number
         if name == "callable" and a:
             if isinstance(a[0], (FuncV, BoundV, RefV)):
                 return TRUE
